@@ -151,7 +151,8 @@ class Gen:
         for n in states:
             decls.append("Real %s%s;" % (n, attrs()))
         for i in range(r.randint(0, 2)):
-            decls.append("parameter Real p%d = %s;" % (i, self.start_literal()))
+            decls.append("parameter Real p%d%s = %s;" % (i, "(start=%s)" % self.lit() if r.random() < 0.3 else "",
+                                                         self.start_literal()))
             self.reals.append("p%d" % i)
         for i in range(r.randint(0, 2)):
             decls.append("constant Real c%d = %s;" % (i, self.lit()))
@@ -245,6 +246,8 @@ def canon_xml(el):
         return ["#" + type(el).__name__, [], []]
     tag = etree.QName(el).localname if "}" in el.tag else el.tag
     kids = [canon_xml(k) for k in el]
+    if tag == "modifier":   # the order of a modifier's items carries no meaning
+        kids.sort(key=lambda k: json.dumps(k[1]))
     out = [tag, sorted([str(k), str(v)] for k, v in el.attrib.items()), kids]
     texts = [t for t in [el.text] + [k.tail for k in el] if t and t.strip()]
     if texts:
@@ -353,7 +356,10 @@ def abstract_flat(flat):
 
 def model_canon(x):
     """Model tree [tag, [[k,v]..] in document order, kids] -> canonical (attributes sorted)."""
-    return [x[0], sorted(x[1]), [model_canon(k) for k in x[2]]]
+    kids = [model_canon(k) for k in x[2]]
+    if x[0] == "modifier":
+        kids.sort(key=lambda k: json.dumps(k[1]))
+    return [x[0], sorted(x[1]), kids]
 
 
 # ------------------------------------------------------------------------------------------------
